@@ -158,6 +158,49 @@ func (it *interp) project(d *disjunct, cf frameID) {
 				rest = append(rest, q)
 			}
 		}
+		// an equality that defines v (coefficient +-1, both directions present) is substituted:
+		// exact, and no blow-up
+		substituted := false
+		for _, pq := range pos {
+			if coefOf(pq.L, v) != 1 {
+				continue
+			}
+			negKey := lin.Ineq{L: pq.L.Scale(-1)}.Key()
+			for _, nq := range neg {
+				if nq.Key() != negKey {
+					continue
+				}
+				// pq: v + e <= 0 and nq: -v - e <= 0, hence v = -e
+				e := pq.L.Subst(v, lin.Const(0))
+				def := e.Scale(-1)
+				if def.Bad() {
+					continue
+				}
+				for _, q := range append(append([]lin.Ineq(nil), pos...), neg...) {
+					if q.Key() == pq.Key() || q.Key() == nq.Key() {
+						continue
+					}
+					r := q.L.Subst(v, def)
+					if r.Bad() || r.Has(v) {
+						continue
+					}
+					nqq := lin.Ineq{L: r}
+					if triv, _ := nqq.Trivial(); triv {
+						continue
+					}
+					rest = append(rest, nqq)
+				}
+				substituted = true
+				break
+			}
+			if substituted {
+				break
+			}
+		}
+		if substituted {
+			facts = rest
+			continue
+		}
 		if len(pos)*len(neg) <= 12 {
 			for _, p := range pos {
 				for _, n := range neg {
